@@ -60,6 +60,19 @@ def make_spec(rng, idx=0):
                 levels.append({"key": k, "free": False, "digits": (p + name[0], n)})
         groups = rng.sample(list(EXTS.keys()), rng.randint(1, 3))
         spec["basetypes"].append({"name": name, "code": code, "folder": name.upper() + "S", "levels": levels, "groups": groups})
+    # a basetype that ends on the VERSION level (no states, no files): its leaf key is an intermediate key
+    # of the other basetypes ("a leaf key per basetype": nothing may assume that all basetypes share one)
+    if rng.random() < 0.5:
+        name = rng.choice([x for x in ["edit", "reel", "board"] if x not in names])
+        code = rng.choice([c for c in ["d", "r", "b", "q"] if c not in codes])
+        levels = []
+        for i in range(rng.randint(1, 2)):
+            k = fresh(KEY_POOL)
+            if rng.random() < 0.5:
+                levels.append({"key": k, "free": False, "vocab": rng.sample(WORDS, rng.randint(2, 4))})
+            else:
+                levels.append({"key": k, "free": False, "digits": (rng.choice(["cut", "rl"]), 2)})
+        spec["basetypes"].append({"name": name, "code": code, "folder": name.upper() + "S", "levels": levels, "groups": [], "short": True})
     spec["aliases"] = {"cache": ["abc", "vdb", "fur", "json"], "movie": ["mp4", "mov", "avi"]}
     spec["third_path_config"] = rng.random() < 0.7
     # documented usage: intermediate types extrapolated from a LEAF type (its name suffix is not its last key)
@@ -94,6 +107,33 @@ def write_package(spec, directory):
         head = "{%s}/{%s:%s}" % (P, T, bt["code"])
         mid = "/".join("{%s}" % l["key"] for l in bt["levels"])
         full = head + "/" + mid + "/{%s}/{%s}" % (V, S)
+        if bt.get("short"):
+            sid_templates.append(("%s__%s" % (b, V), head + "/" + mid + "/{%s}" % V))
+            to_extrapolate.append("%s__%s" % (b, V))
+            sid_templates.append((b, head))
+            key_types[b] = [P, T] + [l["key"] for l in bt["levels"]] + [V]
+            leaf_keys[b] = V
+            narrowing[b] = "%s=~%s" % (T, bt["code"])
+            kp = {"{%s}" % P: "{%s:%s}" % (P, _closed(spec["projects"])),
+                  "{%s:%s}" % (T, bt["code"]): "{%s:%s}" % (T, _closed([bt["code"]])),
+                  "{%s}" % V: "{%s:%s}" % (V, _digits(vp, vd))}
+            for l in bt["levels"]:
+                if l.get("vocab"):
+                    kp["{%s}" % l["key"]] = "{%s:%s}" % (l["key"], _closed(l["vocab"]))
+                elif l.get("digits"):
+                    kp["{%s}" % l["key"]] = "{%s:%s}" % (l["key"], _digits(*l["digits"]))
+            key_patterns[b] = kp
+            root = "{@root}/{%s}/%s/{%s:%s}" % (P, spec["folders"]["prod"], T, bt["folder"])
+            dirs = root
+            lvl_dirs = []
+            for l in bt["levels"]:
+                dirs += "/{%s}" % l["key"]
+                lvl_dirs.append(dirs)
+            path_templates.append(("%s__%s" % (b, V), dirs + "/{%s}" % V))
+            for l, dpath in reversed(list(zip(bt["levels"], lvl_dirs))):
+                path_templates.append(("%s__%s" % (b, l["key"]), dpath))
+            path_templates.append((b, root))
+            continue
         for g in bt["groups"]:
             sid_templates.append(("%s__%s_file" % (b, g), full + "/{%s:%s}" % (E, g)))
         if spec.get("extrapolate_from_leaf"):
